@@ -1,6 +1,828 @@
-//! set_runner for the line protocol (extension point).
-use crate::exec::Runner;
+//! `hashbrown::HashSet<K, IdBuild, TapeAlloc>` for the line protocol (`coll=set`): two sets `a` / `b`,
+//! the full single-set API, the lazy set-algebra iterators, predicates, operator and assigning
+//! operator forms — with direct oracles (structural invariant, reference sets, ownership ledger).
+use crate::elems::*;
+use crate::exec::{fmt_state, fmt_tre, inv_oracle, lawful, loud, observe_iter, panic_class, quiet, Runner};
+use crate::tape::{self, TapeAlloc};
+use hashbrown::hash_set::Entry;
+use hashbrown::verif::Dump;
+use hashbrown::HashSet;
+use std::collections::{BTreeMap, BTreeSet, HashMap as StdMap};
+use std::panic::{catch_unwind, AssertUnwindSafe};
+
+pub type S<K> = HashSet<K, IdBuild, TapeAlloc>;
+
+/// Reference set: key ↦ kid of the object stored for it.
+pub type RefSet = BTreeMap<u64, u64>;
+
+/// A value owned by the harness (returned by the collection): its destructor is not logged, also
+/// when it runs during unwinding.
+struct Held<T>(Option<T>);
+impl<T> Held<T> {
+    fn new(x: T) -> Self {
+        Held(Some(x))
+    }
+    fn get(&self) -> &T {
+        self.0.as_ref().unwrap()
+    }
+    fn get_mut(&mut self) -> &mut T {
+        self.0.as_mut().unwrap()
+    }
+}
+impl<T> Drop for Held<T> {
+    fn drop(&mut self) {
+        let was = tape::with(|t| std::mem::replace(&mut t.logging, false));
+        self.0 = None;
+        tape::with(|t| t.logging = was);
+    }
+}
+
+fn new_set<K: KeyT>() -> S<K> {
+    HashSet::with_hasher_in(IdBuild, TapeAlloc)
+}
+
+fn fmt_e<K: KeyT>(k: &K) -> String {
+    format!("{}.{}.0.0", k.k(), k.id())
+}
+fn fmt_es<K: KeyT>(v: &[K]) -> String {
+    v.iter().map(fmt_e).collect::<Vec<_>>().join(",")
+}
+
+fn set_contents<K: KeyT>(m: &S<K>) -> RefSet {
+    let d = m.verif_dump();
+    let mut out = RefSet::new();
+    if !d.is_singleton {
+        for i in 0..=d.bucket_mask {
+            if let Some(k) = m.verif_bucket(i) {
+                out.insert(k.k(), k.id());
+            }
+        }
+    }
+    out
+}
+
+/// All `(key, kid)` pairs physically stored (duplicates of a key are possible only in unlawful environments).
+fn set_kids<K: KeyT>(m: &S<K>) -> Vec<u64> {
+    let d = m.verif_dump();
+    let mut out = Vec::new();
+    if !d.is_singleton {
+        for i in 0..=d.bucket_mask {
+            if let Some(k) = m.verif_bucket(i) {
+                out.push(k.id());
+            }
+        }
+    }
+    out
+}
+
+fn set_state<K: KeyT>(m: &S<K>) -> String {
+    let d = m.verif_dump();
+    let mut slots = Vec::new();
+    if !d.is_singleton {
+        for i in 0..=d.bucket_mask {
+            if let Some(k) = m.verif_bucket(i) {
+                slots.push((i, fmt_e(k)));
+            }
+        }
+    }
+    format!("{} len={} cap={} asz={}", fmt_state(&d, &slots), m.len(), m.capacity(), m.allocation_size())
+}
+
+fn set_addr_index<K: KeyT>(m: &S<K>) -> StdMap<usize, usize> {
+    let d = m.verif_dump();
+    let mut ka = StdMap::new();
+    if !d.is_singleton {
+        for i in 0..=d.bucket_mask {
+            if let Some(k) = m.verif_bucket(i) {
+                ka.insert(k as *const K as usize, i);
+            }
+        }
+    }
+    ka
+}
+
+/// Drive a lazy set-algebra iterator with `next`: `sh=<lo>..<hi|inf> y=<k.kid,…>` in yield order.
+fn lazy<'a, K: KeyT, I: Iterator<Item = &'a K>>(mut it: I) -> String {
+    let (lo, hi) = it.size_hint();
+    let mut ys = Vec::new();
+    while let Some(x) = it.next() {
+        ys.push(format!("{}.{}", x.k(), x.id()));
+    }
+    let mut flags = String::new();
+    if it.next().is_some() || it.next().is_some() {
+        flags.push_str(" NOT-FUSED");
+    }
+    if it.size_hint().1 != Some(0) {
+        flags.push_str(" HINT-AFTER-END");
+    }
+    format!("sh={}..{} y={}{}", lo, hi.map_or("inf".to_string(), |h| h.to_string()), ys.join(","), flags)
+}
+
+/// Result of an operator form: geometry and elements sorted by `(k, kid)`; dropped quietly afterwards.
+fn opform<K: KeyT>(res: Held<S<K>>) -> String {
+    let s = res.get();
+    let d = s.verif_dump();
+    let mut es: Vec<(u64, u64)> = s.iter().map(|k| (k.k(), k.id())).collect();
+    es.sort();
+    let mut out = format!(
+        "m={} g={} y={}",
+        d.bucket_mask,
+        d.growth_left,
+        es.iter().map(|(k, id)| format!("{}.{}", k, id)).collect::<Vec<_>>().join(",")
+    );
+    if let Some(why) = inv_oracle(&d) {
+        out.push_str(&format!(" ORACLE-INV(result:{})", why.replace(' ', "_")));
+    }
+    if s.len() != es.len() {
+        out.push_str(" ORACLE-REF(result_len_differs_from_its_iteration)");
+    }
+    out
+}
+
+fn parse_pairs(list: &str) -> Vec<(u64, u64)> {
+    if list.is_empty() {
+        return Vec::new();
+    }
+    list.split(',')
+        .map(|e| {
+            let mut p = e.split('.');
+            (p.next().unwrap().parse().unwrap(), p.next().unwrap().parse().unwrap())
+        })
+        .collect()
+}
+
+fn field<'a>(ret: &'a str, key: &str) -> &'a str {
+    for t in ret.split(' ') {
+        if let Some(v) = t.strip_prefix(key) {
+            return v;
+        }
+    }
+    ""
+}
+
+pub struct SetRunner<K: KeyT> {
+    a: Option<S<K>>,
+    b: Option<S<K>>,
+    ra: RefSet,
+    rb: RefSet,
+    /// predicate decisions of the last retain / extract_if: (key, answer)
+    preds: std::rc::Rc<std::cell::RefCell<Vec<(u64, bool)>>>,
+    live: BTreeSet<u64>,
+    dead: BTreeSet<u64>,
+    leak_ok: bool,
+}
+
+/// kid of the object an op moves into the call: `(kid, certainly_created)`.
+fn set_moved_in(name: &str, a: &[&str]) -> Option<(u64, bool)> {
+    let p = |i: usize| a[i].parse::<u64>().unwrap();
+    match (name, a.len()) {
+        ("insert", 2) | ("insert", 4) | ("replace", 2) | ("get_or_insert", 2) | ("entry_insert", 2)
+        | ("entry_or_insert", 2) | ("entry_remove", 2) => Some((p(1), true)),
+        ("get_or_insert_with", 2) => Some((p(1), false)),
+        ("get_or_insert_with_bad", 3) => Some((p(2), false)),
+        _ => None,
+    }
+}
+
+impl<K: KeyT> SetRunner<K> {
+    pub fn new() -> Self {
+        SetRunner {
+            a: Some(new_set()),
+            b: Some(new_set()),
+            ra: RefSet::new(),
+            rb: RefSet::new(),
+            preds: Default::default(),
+            live: Default::default(),
+            dead: Default::default(),
+            leak_ok: false,
+        }
+    }
+    fn get(&self, tgt: &str) -> &S<K> {
+        if tgt == "a" {
+            self.a.as_ref().unwrap()
+        } else {
+            self.b.as_ref().unwrap()
+        }
+    }
+    fn other_name(tgt: &str) -> &'static str {
+        if tgt == "a" {
+            "b"
+        } else {
+            "a"
+        }
+    }
+
+    fn run(&mut self, tgt: &str, name: &str, a: &[&str]) -> String {
+        let n = |i: usize| -> u64 { a[i].parse().unwrap() };
+        let rec = self.preds.clone();
+        rec.borrow_mut().clear();
+        let (m, other) = if tgt == "a" {
+            (self.a.as_mut().unwrap(), self.b.as_mut().unwrap())
+        } else {
+            (self.b.as_mut().unwrap(), self.a.as_mut().unwrap())
+        };
+        let pred = move |k: &K| {
+            let (ans, _cannot_mutate) = tape::pred_of();
+            rec.borrow_mut().push((k.k(), ans));
+            ans
+        };
+        match (name, a.len()) {
+            ("insert", 2) | ("insert", 4) => m.insert(K::new(n(0), n(1))).to_string(),
+            ("contains", 1) => m.contains(&Q(n(0))).to_string(),
+            ("get", 1) => m.get(&Q(n(0))).map_or("-".into(), fmt_e),
+            ("remove", 1) => m.remove(&Q(n(0))).to_string(),
+            ("take", 1) => {
+                let r = Held::new(m.take(&Q(n(0))));
+                r.get().as_ref().map_or("-".into(), fmt_e)
+            }
+            ("replace", 2) => {
+                let r = Held::new(m.replace(K::new(n(0), n(1))));
+                r.get().as_ref().map_or("-".into(), fmt_e)
+            }
+            ("get_or_insert", 2) => fmt_e(m.get_or_insert(K::new(n(0), n(1)))),
+            ("get_or_insert_with", 2) => {
+                let kid2 = n(1);
+                fmt_e(m.get_or_insert_with(&Q(n(0)), |q| K::new(q.0, kid2)))
+            }
+            ("get_or_insert_with_bad", 3) => {
+                let (k2, kid2) = (n(1), n(2));
+                fmt_e(m.get_or_insert_with(&Q(n(0)), |_| K::new(k2, kid2)))
+            }
+            ("entry_insert", 2) => {
+                let e = m.entry(K::new(n(0), n(1))).insert();
+                fmt_e(e.get())
+            }
+            ("entry_or_insert", 2) => {
+                m.entry(K::new(n(0), n(1))).or_insert();
+                "()".into()
+            }
+            ("entry_remove", 2) => match m.entry(K::new(n(0), n(1))) {
+                Entry::Occupied(o) => {
+                    let r = Held::new(o.remove());
+                    fmt_e(r.get())
+                }
+                Entry::Vacant(v) => {
+                    drop(v);
+                    "-".into()
+                }
+            },
+            ("clear", 0) => {
+                m.clear();
+                "()".into()
+            }
+            ("reserve", 1) => {
+                m.reserve(n(0) as usize);
+                "()".into()
+            }
+            ("try_reserve", 1) => fmt_tre(m.try_reserve(n(0) as usize)),
+            ("shrink_to", 1) => {
+                m.shrink_to(n(0) as usize);
+                "()".into()
+            }
+            ("shrink_to_fit", 0) => {
+                m.shrink_to_fit();
+                "()".into()
+            }
+            ("retain", 0) => {
+                m.retain(pred);
+                "()".into()
+            }
+            ("extract_if", 1) => {
+                let mut out = Held::new(Vec::new());
+                {
+                    let mut e = m.extract_if(pred);
+                    for _ in 0..n(0) {
+                        match e.next() {
+                            Some(x) => out.get_mut().push(x),
+                            None => break,
+                        }
+                    }
+                }
+                fmt_es(out.get())
+            }
+            ("drain", 2) => {
+                let mut out = Held::new(Vec::new());
+                {
+                    let mut d = m.drain();
+                    for _ in 0..n(0) {
+                        match d.next() {
+                            Some(x) => out.get_mut().push(x),
+                            None => break,
+                        }
+                    }
+                    if n(1) == 1 {
+                        std::mem::forget(d);
+                    }
+                }
+                fmt_es(out.get())
+            }
+            ("into_iter", 1) => {
+                let old = std::mem::replace(m, new_set());
+                let mut out = Held::new(Vec::new());
+                {
+                    let mut it = old.into_iter();
+                    for _ in 0..n(0) {
+                        match it.next() {
+                            Some(x) => out.get_mut().push(x),
+                            None => break,
+                        }
+                    }
+                }
+                fmt_es(out.get())
+            }
+            ("iter", 1) | ("iter", 2) => {
+                let ka = set_addr_index(m);
+                let bad = usize::MAX;
+                observe_iter(m.iter(), n(0) as usize, |k| *ka.get(&(*k as *const K as usize)).unwrap_or(&bad))
+            }
+            ("with_capacity", 1) => {
+                let old = std::mem::replace(m, new_set());
+                drop(old);
+                *m = HashSet::with_capacity_and_hasher_in(n(0) as usize, IdBuild, TapeAlloc);
+                "()".into()
+            }
+            ("clone_to_other", 0) => {
+                let old = std::mem::replace(other, new_set());
+                drop(old);
+                *other = m.clone();
+                "()".into()
+            }
+            ("clone_from", 0) => {
+                m.clone_from(other);
+                "()".into()
+            }
+            ("nop", 0) => "()".into(),
+            // lazy set algebra, right operand = the other set
+            ("union", 0) => lazy(m.union(other)),
+            ("intersection", 0) => lazy(m.intersection(other)),
+            ("difference", 0) => lazy(m.difference(other)),
+            ("symmetric_difference", 0) => lazy(m.symmetric_difference(other)),
+            ("is_subset", 0) => m.is_subset(other).to_string(),
+            ("is_superset", 0) => m.is_superset(other).to_string(),
+            ("is_disjoint", 0) => m.is_disjoint(other).to_string(),
+            ("eq", 0) => (*m == *other).to_string(),
+            // operator forms: a new set (default hasher and allocator), printed and dropped
+            ("bitor", 0) => opform(Held::new(&*m | &*other)),
+            ("bitand", 0) => opform(Held::new(&*m & &*other)),
+            ("bitxor", 0) => opform(Held::new(&*m ^ &*other)),
+            ("sub", 0) => opform(Held::new(&*m - &*other)),
+            // assigning operator forms
+            ("bitor_assign", 0) => {
+                *m |= &*other;
+                "()".into()
+            }
+            ("bitand_assign", 0) => {
+                *m &= &*other;
+                "()".into()
+            }
+            ("bitxor_assign", 0) => {
+                *m ^= &*other;
+                "()".into()
+            }
+            ("sub_assign", 0) => {
+                *m -= &*other;
+                "()".into()
+            }
+            _ => format!("bad-op {}", name),
+        }
+    }
+
+    /// Direct oracle: what mathematical sets (plus "which object is stored") say this op must
+    /// return and leave behind. Only for lawful environments.
+    fn ref_step(&mut self, tgt: &str, name: &str, a: &[&str], ret: &str) -> Option<String> {
+        let n = |i: usize| -> u64 { a[i].parse().unwrap() };
+        let fe = |k: u64, kid: u64| format!("{}.{}.0.0", k, kid);
+        let preds = self.preds.borrow().clone();
+        let actual = set_contents(self.get(tgt));
+        let other_actual = set_contents(self.get(Self::other_name(tgt)));
+        let (r, o) = if tgt == "a" { (&mut self.ra, &mut self.rb) } else { (&mut self.rb, &mut self.ra) };
+        let mut expect: Option<String> = None;
+        let keys = |m: &RefSet| -> BTreeSet<u64> { m.keys().copied().collect() };
+        let (rk, ok) = (keys(r), keys(o));
+        let math = |op: &str| -> BTreeSet<u64> {
+            match op {
+                "union" | "bitor" | "bitor_assign" => rk.union(&ok).copied().collect(),
+                "intersection" | "bitand" | "bitand_assign" => rk.intersection(&ok).copied().collect(),
+                "difference" | "sub" | "sub_assign" => rk.difference(&ok).copied().collect(),
+                _ => rk.symmetric_difference(&ok).copied().collect(),
+            }
+        };
+        let mut other_changes = false;
+        match (name, a.len()) {
+            ("insert", 2) | ("insert", 4) => {
+                // a present value keeps the OLD object
+                expect = Some((!r.contains_key(&n(0))).to_string());
+                r.entry(n(0)).or_insert(n(1));
+            }
+            ("contains", 1) => expect = Some(r.contains_key(&n(0)).to_string()),
+            ("get", 1) => expect = Some(r.get(&n(0)).map_or("-".into(), |&kid| fe(n(0), kid))),
+            ("remove", 1) => expect = Some(r.remove(&n(0)).is_some().to_string()),
+            ("take", 1) | ("entry_remove", 2) => {
+                expect = Some(r.remove(&n(0)).map_or("-".into(), |kid| fe(n(0), kid)))
+            }
+            ("replace", 2) => {
+                // the NEW object is stored, the old one returned
+                expect = Some(r.insert(n(0), n(1)).map_or("-".into(), |kid| fe(n(0), kid)));
+            }
+            ("get_or_insert", 2) | ("entry_insert", 2) | ("get_or_insert_with", 2) => {
+                let kid = *r.entry(n(0)).or_insert(n(1));
+                expect = Some(fe(n(0), kid));
+            }
+            ("get_or_insert_with_bad", 3) => match r.get(&n(0)) {
+                Some(&kid) => expect = Some(fe(n(0), kid)),
+                None if n(0) == n(1) => {
+                    r.insert(n(0), n(2));
+                    expect = Some(fe(n(0), n(2)));
+                }
+                None => return Some("get_or_insert_with accepted a non-equivalent value".into()),
+            },
+            ("entry_or_insert", 2) => {
+                r.entry(n(0)).or_insert(n(1));
+                expect = Some("()".into());
+            }
+            ("clear", 0) | ("with_capacity", 1) => {
+                r.clear();
+                expect = Some("()".into());
+            }
+            ("reserve", 1) | ("shrink_to", 1) | ("shrink_to_fit", 0) | ("nop", 0) => expect = Some("()".into()),
+            ("try_reserve", 1) => {
+                let refusing = tape::with(|t| t.p.afail.is_some() || t.p.afrom.is_some());
+                if n(0) < (1 << 40) && !refusing {
+                    expect = Some("ok".into())
+                }
+            }
+            ("retain", 0) | ("extract_if", 1) => {
+                let mut yielded = Vec::new();
+                let mut seen = BTreeSet::new();
+                for (k, ans) in &preds {
+                    if !seen.insert(*k) {
+                        return Some(format!("{} visited key {} twice", name, k));
+                    }
+                    if !r.contains_key(k) {
+                        return Some(format!("{} visited absent key {}", name, k));
+                    }
+                    let out = if name == "retain" { !*ans } else { *ans };
+                    if out {
+                        let kid = r.remove(k).unwrap();
+                        yielded.push(fe(*k, kid));
+                    }
+                }
+                if name == "retain" {
+                    if seen.len() != rk.len() {
+                        return Some("retain: predicate calls do not cover the set once".into());
+                    }
+                    expect = Some("()".into());
+                } else {
+                    if yielded.len() > n(0) as usize || (yielded.len() < n(0) as usize && seen.len() != rk.len()) {
+                        return Some("extract_if stopped early or ran too far".into());
+                    }
+                    expect = Some(yielded.join(","));
+                }
+            }
+            ("drain", 2) | ("into_iter", 1) => {
+                let got: Vec<&str> = if ret.is_empty() { vec![] } else { ret.split(',').collect() };
+                let want = std::cmp::min(n(0) as usize, r.len());
+                if got.len() != want {
+                    return Some(format!("{} yielded {} elements, expected {}", name, got.len(), want));
+                }
+                let mut seen = BTreeSet::new();
+                for g in &got {
+                    let k: u64 = g.split('.').next().unwrap().parse().unwrap();
+                    match r.get(&k) {
+                        Some(&kid) if fe(k, kid) == *g && seen.insert(k) => {}
+                        _ => return Some(format!("{} yielded {} which is not a stored element (or twice)", name, g)),
+                    }
+                }
+                r.clear();
+            }
+            ("iter", _) => {
+                // every bucket index once, prefix ++ fold = prefix ++ rest = all full buckets ascending
+                let list = |key: &str| -> Vec<usize> {
+                    let v = field(ret, key);
+                    if v.is_empty() { vec![] } else { v.split(',').map(|x| x.parse().unwrap()).collect() }
+                };
+                let (pre, fold, rest) = (list("pre="), list("fold="), list("rest="));
+                let mut all = pre.clone();
+                all.extend(&fold);
+                if fold != rest || all.len() != r.len() || all.windows(2).any(|w| w[0] >= w[1]) {
+                    return Some("iter does not visit every element exactly once in bucket order".into());
+                }
+            }
+            ("clone_to_other", 0) => {
+                other_changes = true;
+                if keys(&other_actual) != rk {
+                    return Some("clone differs from source".into());
+                }
+                if other_actual.values().any(|&kid| kid < 1_000_000) {
+                    return Some("clone shares an object identity with its source".into());
+                }
+                *o = other_actual.clone();
+                expect = Some("()".into());
+            }
+            ("clone_from", 0) => {
+                if keys(&actual) != ok {
+                    return Some("clone_from result differs from source".into());
+                }
+                if actual.values().any(|&kid| kid < 1_000_000) {
+                    return Some("clone_from shares an object identity with its source".into());
+                }
+                *r = actual.clone();
+                expect = Some("()".into());
+            }
+            ("union", 0) | ("intersection", 0) | ("difference", 0) | ("symmetric_difference", 0) => {
+                let ys = parse_pairs(field(ret, "y="));
+                let mut seen = BTreeSet::new();
+                for (k, kid) in &ys {
+                    if !seen.insert(*k) {
+                        return Some(format!("{} yielded key {} twice", name, k));
+                    }
+                    // a yielded reference points at an object stored in one of the operands
+                    let from_self = r.get(k) == Some(kid);
+                    let from_other = o.get(k) == Some(kid);
+                    let ok_src = match name {
+                        "difference" => from_self,
+                        _ => from_self || from_other,
+                    };
+                    if !ok_src {
+                        return Some(format!("{} yielded {}.{} which is stored in neither operand", name, k, kid));
+                    }
+                }
+                let want = math(name);
+                if seen != want {
+                    return Some(format!("{} yielded keys {:?}, the mathematical result is {:?}", name, seen, want));
+                }
+                let sh = field(ret, "sh=");
+                let (lo, hi) = sh.split_once("..").unwrap();
+                let lo: usize = lo.parse().unwrap();
+                if lo > ys.len() || (hi != "inf" && hi.parse::<usize>().unwrap() < ys.len()) {
+                    return Some(format!("{} size_hint {} excludes the actual count {}", name, sh, ys.len()));
+                }
+                if ret.contains("NOT-FUSED") || ret.contains("HINT-AFTER-END") {
+                    return Some(format!("{} iterator misbehaves after its end", name));
+                }
+            }
+            ("is_subset", 0) => expect = Some(rk.is_subset(&ok).to_string()),
+            ("is_superset", 0) => expect = Some(rk.is_superset(&ok).to_string()),
+            ("is_disjoint", 0) => expect = Some(rk.is_disjoint(&ok).to_string()),
+            ("eq", 0) => expect = Some((rk == ok).to_string()),
+            ("bitor", 0) | ("bitand", 0) | ("bitxor", 0) | ("sub", 0) => {
+                let ys = parse_pairs(field(ret, "y="));
+                let mut seen = BTreeSet::new();
+                for (k, kid) in &ys {
+                    if !seen.insert(*k) {
+                        return Some(format!("{} result holds key {} twice", name, k));
+                    }
+                    if *kid < 1_000_000 {
+                        return Some(format!("{} result shares object {} with an operand", name, kid));
+                    }
+                }
+                let want = math(name);
+                if seen != want {
+                    return Some(format!("{} produced keys {:?}, the mathematical result is {:?}", name, seen, want));
+                }
+            }
+            ("bitor_assign", 0) | ("bitand_assign", 0) | ("bitxor_assign", 0) | ("sub_assign", 0) => {
+                let want = math(name);
+                if keys(&actual) != want {
+                    return Some(format!(
+                        "{} left keys {:?}, the mathematical result is {:?}",
+                        name,
+                        keys(&actual),
+                        want
+                    ));
+                }
+                for (k, kid) in &actual {
+                    match r.get(k) {
+                        Some(old) if old != kid => {
+                            return Some(format!("{} exchanged the object stored for key {}", name, k))
+                        }
+                        None if *kid < 1_000_000 => {
+                            return Some(format!("{} stored object {} which is not a fresh clone", name, kid))
+                        }
+                        _ => {}
+                    }
+                }
+                *r = actual.clone();
+                expect = Some("()".into());
+            }
+            _ => return Some(format!("no reference semantics for {}", name)),
+        }
+        if let Some(e) = expect {
+            if e != ret {
+                return Some(format!("{} returned {} but the reference set says {}", name, ret, e));
+            }
+        }
+        if *r != actual {
+            let missing: Vec<_> = r.keys().filter(|k| !actual.contains_key(k)).collect();
+            let extra: Vec<_> = actual.keys().filter(|k| !r.contains_key(k)).collect();
+            return Some(format!(
+                "contents differ from the reference set after {} (missing keys {:?}, extra keys {:?}, or the stored object changed)",
+                name, missing, extra
+            ));
+        }
+        if !other_changes && *o != other_actual {
+            return Some(format!("{} modified the other set", name));
+        }
+        None
+    }
+
+    /// Ownership oracle: every key object moved into a set is in exactly one of {a set, dropped once
+    /// by the collection, handed back to the caller}.
+    fn ledger_step(&mut self, name: &str, a: &[&str], events: &[String]) -> Option<String> {
+        if !K::DROP || !K::IDS {
+            tape::take_returned();
+            return None;
+        }
+        let mut held = BTreeSet::new();
+        for m in [self.a.as_ref().unwrap(), self.b.as_ref().unwrap()] {
+            for id in set_kids(m) {
+                if !held.insert(id) {
+                    return Some(format!("object k{} is held twice", id));
+                }
+            }
+        }
+        let dropped: Vec<u64> = events
+            .iter()
+            .filter_map(|e| e.strip_prefix("dk"))
+            .map(|s| s.parse().unwrap())
+            .collect();
+        let returned: Vec<u64> = tape::take_returned()
+            .iter()
+            .filter_map(|e| e.strip_prefix('k').map(|s| s.parse().unwrap()))
+            .collect();
+        match set_moved_in(name, a) {
+            Some((kid, true)) => {
+                self.live.insert(kid);
+            }
+            // the closure of get_or_insert_with may never have run
+            Some((kid, false)) if held.contains(&kid) || dropped.contains(&kid) => {
+                self.live.insert(kid);
+            }
+            _ => {}
+        }
+        if name == "drain" && a.len() == 2 && a[1] == "1" {
+            self.leak_ok = true;
+        }
+        if tape::with(|t| t.p.dpanic.is_some()) {
+            self.leak_ok = true;
+        }
+        // clones appear with fresh ids
+        for &id in &held {
+            if id >= 1_000_000 && !self.dead.contains(&id) {
+                self.live.insert(id);
+            }
+        }
+        for id in dropped {
+            // clones made and destroyed inside one operation are never seen in a collection
+            let transient = id >= 1_000_000 && !self.dead.contains(&id);
+            if !self.live.remove(&id) && !transient {
+                return Some(format!("object k{} dropped twice (or never owned)", id));
+            }
+            if !self.dead.insert(id) {
+                return Some(format!("object k{} dropped twice", id));
+            }
+        }
+        for id in returned {
+            // results of operator forms (fresh clones never in `live`) are dropped by the harness too
+            if self.live.remove(&id) {
+                if !self.dead.insert(id) {
+                    return Some(format!("object k{} handed back after it was dropped", id));
+                }
+            } else if id >= 1_000_000 {
+                if !self.dead.insert(id) {
+                    return Some(format!("clone k{} handed back twice", id));
+                }
+            }
+        }
+        for id in &held {
+            if !self.live.contains(id) {
+                return Some(format!("object k{} is in a set but was dropped or returned", id));
+            }
+        }
+        if !self.leak_ok {
+            if let Some(id) = self.live.iter().find(|id| !held.contains(*id)) {
+                return Some(format!("object k{} leaked: owned by no set, never dropped, never returned", id));
+            }
+        } else {
+            self.live = held;
+        }
+        None
+    }
+}
+
+impl<K: KeyT> Runner for SetRunner<K> {
+    fn layout(&self) -> (usize, usize, bool, bool) {
+        let (size, _) = hashbrown::verif::table_layout_new::<(K, ())>();
+        (size, std::mem::align_of::<(K, ())>(), K::DROP, K::IDS)
+    }
+    fn op(&mut self, tgt: &str, name: &str, args: &[&str]) -> String {
+        loud();
+        tape::with(|t| t.events.clear());
+        tape::take_returned();
+        let mut ret = match catch_unwind(AssertUnwindSafe(|| self.run(tgt, name, args))) {
+            Ok(s) => s,
+            Err(p) => panic_class(p),
+        };
+        quiet();
+        let evs = tape::peek_events();
+        if let Some(why) = self.ledger_step(name, args, &evs) {
+            ret.push_str(&format!(" ORACLE-LEDGER({})", why.replace(' ', "_")));
+            self.leak_ok = true;
+        }
+        let oth = Self::other_name(tgt);
+        if let Some(why) = inv_oracle(&self.get(tgt).verif_dump()) {
+            ret.push_str(&format!(" ORACLE-INV({})", why.replace(' ', "_")));
+        }
+        if let Some(why) = inv_oracle(&self.get(oth).verif_dump()) {
+            ret.push_str(&format!(" ORACLE-INV(other:{})", why.replace(' ', "_")));
+        }
+        let mut resync = true;
+        if lawful() {
+            if !ret.starts_with("panic") {
+                resync = false;
+                if let Some(why) = self.ref_step(tgt, name, args, &ret.clone()) {
+                    ret.push_str(&format!(" ORACLE-REF({})", why.replace(' ', "_")));
+                    resync = true;
+                }
+            } else if ret.starts_with("panic:notequiv") {
+                // the only lawful panic: a misbehaving `get_or_insert_with` closure; the set keeps its elements
+                resync = false;
+                let bad = name == "get_or_insert_with_bad"
+                    && args.len() == 3
+                    && args[0] != args[1]
+                    && !self.get_ref(tgt).contains_key(&args[0].parse().unwrap());
+                if !bad {
+                    ret.push_str(" ORACLE-REF(spurious_not-equivalent_panic)");
+                }
+                if set_contents(self.get("a")) != self.ra || set_contents(self.get("b")) != self.rb {
+                    ret.push_str(" ORACLE-REF(set_changed_by_a_rejected_get_or_insert_with)");
+                    resync = true;
+                }
+            }
+        }
+        if resync {
+            // do not cascade: continue from what the implementation holds
+            self.ra = set_contents(self.get("a"));
+            self.rb = set_contents(self.get("b"));
+        }
+        // `clone_to_other` modifies the other collection; the state printed is always the target's
+        let st = set_state(self.get(tgt));
+        format!("{} ; {} ; {} ; {}", ret, st, tape::take_events(), tape::counters())
+    }
+    fn dump(&self, tgt: &str) -> Dump {
+        self.get(tgt).verif_dump()
+    }
+    fn keys(&self, tgt: &str) -> Vec<u64> {
+        let m = self.get(tgt);
+        let d = m.verif_dump();
+        let mut out = Vec::new();
+        if !d.is_singleton {
+            for i in 0..=d.bucket_mask {
+                if let Some(k) = m.verif_bucket(i) {
+                    out.push(k.k());
+                }
+            }
+        }
+        out
+    }
+    fn finish(&mut self) -> Vec<String> {
+        quiet();
+        self.a = None;
+        self.b = None;
+        tape::take_returned();
+        tape::with(|t| {
+            let mut v = std::mem::take(&mut t.alloc_errors);
+            let mut leaks: Vec<String> =
+                t.live_blocks.drain().map(|(_, (s, a))| format!("leaked block {}/{}", s, a)).collect();
+            leaks.sort();
+            v.extend(leaks);
+            v
+        })
+    }
+}
+
+impl<K: KeyT> SetRunner<K> {
+    fn get_ref(&self, tgt: &str) -> &RefSet {
+        if tgt == "a" {
+            &self.ra
+        } else {
+            &self.rb
+        }
+    }
+}
 
 pub fn make(drop: bool, lay: &str) -> Box<dyn Runner> {
-    panic!("no set_runner for drop={} lay={}", drop, lay)
+    match (drop, lay) {
+        (true, "std") => Box::new(SetRunner::<KD<()>>::new()),
+        (false, "std") => Box::new(SetRunner::<KC<()>>::new()),
+        (true, "a16") => Box::new(SetRunner::<KD<A16>>::new()),
+        (false, "a16") => Box::new(SetRunner::<KC<A16>>::new()),
+        (true, "a32") => Box::new(SetRunner::<KD<A32>>::new()),
+        (false, "a32") => Box::new(SetRunner::<KC<A32>>::new()),
+        (true, "a64") => Box::new(SetRunner::<KD<A64>>::new()),
+        (false, "a64") => Box::new(SetRunner::<KC<A64>>::new()),
+        (true, "big") => Box::new(SetRunner::<KD<Big>>::new()),
+        (false, "big") => Box::new(SetRunner::<KC<Big>>::new()),
+        _ => panic!("no set runner for drop={} lay={}", drop, lay),
+    }
 }
